@@ -67,6 +67,41 @@ def _api():
         from bionumpy.io.strops import ints_to_strings
         return ints_to_strings(np.asarray(v) - 3)      # negative numbers included
 
+    def _signed_texts(table, fmt):
+        v = _int_col(table, fmt)
+        if not v:
+            return None
+        return [("+" if i % 3 == 0 else ("-" if i % 3 == 1 else "")) + str(abs(x)) for i, x in enumerate(v)]
+
+    def ints_text_row_view(b, table, fmt):
+        # a row slice of a bigger ragged array: a view that has not been flattened yet
+        t = _signed_texts(table, fmt)
+        return None if t is None else b.as_encoded_array(["77"] + t)[1:]
+
+    def ints_text_column_view(b, table, fmt):
+        # a column slice: every number loses its first (padding) character
+        t = _signed_texts(table, fmt)
+        return None if t is None else b.as_encoded_array(["x" + x for x in t])[:, 1:]
+
+    def ints_text_split_pieces(b, table, fmt):
+        # the pieces strops.split returns
+        t = _signed_texts(table, fmt)
+        if t is None:
+            return None
+        from bionumpy.io.strops import split
+        return split(b.as_encoded_array(",".join(t)), ",")
+
+    def floats_text_row_view(b, table, fmt):
+        t = _signed_texts(table, fmt)
+        return None if t is None else b.as_encoded_array(["1.5"] + [x + ".25" for x in t if not x.startswith("+")] + ["-0.5"])[1:]
+
+    def genotype_rows_text(b, table, fmt):
+        # in-memory genotype rows as they stand in a VCF line (tab separated, newline at the end)
+        n = call(len, table)
+        if raised(n) or n == 0:
+            return None
+        return b.as_encoded_array([["0|1\t1|1\n", "0/0\t./.\n", "1|0\t0|0\n"][i % 3] for i in range(n)])
+
     def ints_text_plus(b, table, fmt):
         # '+'-signed and unsigned numbers, no negative one in the batch
         v = _int_col(table, fmt)
@@ -165,6 +200,14 @@ def _api():
     def f_str_to_float(b, x):
         from bionumpy.io.strops import str_to_float
         return str_to_float(x)
+
+    def f_to_genotype_rows(b, x):
+        from bionumpy.encodings.vcf_encoding import GenotypeRowEncoding
+        return b.as_encoded_array(x, GenotypeRowEncoding)
+
+    def f_to_phased_genotype_rows(b, x):
+        from bionumpy.encodings.vcf_encoding import PhasedGenotypeRowEncoding
+        return PhasedGenotypeRowEncoding.encode(x)
 
     def f_sort(b, x):
         return b.arithmetics.sort_intervals(x)
@@ -306,6 +349,10 @@ def _api():
             ("str_to_int_plus_signed", ints_text_plus, f_str_to_int), ("str_to_int_unsigned", ints_text_unsigned, f_str_to_int),
             ("str_to_float_positive", floats_text_positive, f_str_to_float),
             ("str_to_float_scientific", floats_text_scientific, f_str_to_float),
+            ("str_to_int_row_view", ints_text_row_view, f_str_to_int), ("str_to_int_column_view", ints_text_column_view, f_str_to_int),
+            ("str_to_int_split_pieces", ints_text_split_pieces, f_str_to_int), ("str_to_float_row_view", floats_text_row_view, f_str_to_float),
+            ("as_encoded_array_genotype_rows", genotype_rows_text, f_to_genotype_rows),
+            ("phased_genotype_rows_encode", genotype_rows_text, f_to_phased_genotype_rows),
             ("sort_intervals", intervals, f_sort), ("merge_intervals", intervals, f_merge),
             ("get_boolean_mask", intervals, f_mask), ("get_pileup", intervals, f_pileup),
             ("get_reverse_complement", dna, f_revcomp), ("get_kmers", dna, f_kmers),
@@ -442,7 +489,10 @@ def execute(ctx, sc):
                 obj = call(make, b, table, fmt)
                 if obj is None or raised(obj):
                     continue
-                snap = render_any(obj)
+                # the snapshot comes from a twin built the same way and never handed to the function: rendering the
+                # argument itself would flatten a view and could hide a write through it
+                twin = call(make, b, table, fmt)
+                snap = render_any(twin)
                 snap_table = w.observe(table, with_write=True)
                 r1 = call(fn, b, obj)
                 ctx.evals += 1
